@@ -5,11 +5,13 @@
 pub mod common;
 pub mod nd;
 pub mod script;
-pub mod probe;
 
 pub mod c02_arity;
 pub mod c06_cancel;
 pub mod c07_done;
+pub mod c09_registry;
+pub mod c13_tasks;
+pub mod c17_kv;
 
 /// Registry for the native replay binary.
 #[cfg(not(kani))]
@@ -19,6 +21,26 @@ pub const HARNESSES: &[(&str, fn())] = &[
     ("c06_task_abort_b", c06_cancel::c06_task_abort_b),
     ("c06_command_abort_a", c06_cancel::c06_command_abort_a),
     ("c06_command_abort_b", c06_cancel::c06_command_abort_b),
+    ("c09_routing_q1", c09_registry::c09_routing_q1),
+    ("c09_routing_q2", c09_registry::c09_routing_q2),
+    ("c09_routing_t1", c09_registry::c09_routing_t1),
+    ("c09_routing_t2", c09_registry::c09_routing_t2),
+    ("c09_routing_t3", c09_registry::c09_routing_t3),
+    ("c09_routing_t4", c09_registry::c09_routing_t4),
+    ("c09_routing_t5", c09_registry::c09_routing_t5),
+    ("c12_bad_response_a", c09_registry::c12_bad_response_a),
+    ("c12_bad_response_b", c09_registry::c12_bad_response_b),
+    ("c13_registry_forgets_answered", c09_registry::c13_registry_forgets_answered),
+    ("c13_registry_forgets_finished_stream", c09_registry::c13_registry_forgets_finished_stream),
+    ("c13_registry_forgets_notification", c09_registry::c13_registry_forgets_notification),
+    ("c17_unwrap_value_ops", c17_kv::c17_unwrap_value_ops),
+    ("c17_unwrap_exists_list", c17_kv::c17_unwrap_exists_list),
+    ("c17_value_conversions", c17_kv::c17_value_conversions),
+    ("c17_operation_wire_a", c17_kv::c17_operation_wire_a),
+    ("c17_operation_wire_b", c17_kv::c17_operation_wire_b),
+    ("c17_result_wire_roundtrip", c17_kv::c17_result_wire_roundtrip),
+    ("c13_capability_executor_a", c13_tasks::c13_capability_executor_a),
+    ("c13_capability_executor_b", c13_tasks::c13_capability_executor_b),
     ("c07_evict_iff", c07_done::c07_evict_iff),
     ("c07_settle_q1", c07_done::c07_settle_q1),
     ("c07_settle_q2", c07_done::c07_settle_q2),
@@ -42,8 +64,13 @@ mod selftest {
     /// satisfy its assumptions: guards against harness bugs and model/real divergence.
     #[test]
     fn harnesses_pass_natively_on_sample_inputs() {
+        // prints one `SELFTEST-FAIL <harness> seed=<n>` line per harness that panics natively; the
+        // driver compares these with the solver's verdicts (a native failure the solver does not
+        // report means the models/stubs diverge from the real build)
+        std::panic::set_hook(Box::new(|_| {}));
         let mut ran = 0usize;
         for (name, f) in super::HARNESSES {
+            let mut failed = false;
             for seed in 0u32..1024 {
                 // first value (the case selector of dispatch harnesses) sweeps 0..=255, the others
                 // follow four bit patterns
@@ -72,7 +99,10 @@ mod selftest {
                         if p.downcast_ref::<&str>() == Some(&super::nd::ASSUME_VIOLATED) {
                             continue;
                         }
-                        panic!("harness {name} fails natively on seed {seed}");
+                        if !failed {
+                            println!("SELFTEST-FAIL {name} seed={seed}");
+                        }
+                        failed = true;
                     }
                 }
             }
